@@ -111,11 +111,13 @@ def gen_wrapped(ch):
 
 def build_cases(tier):
     K = 2 if tier == "quick" else 3
+    split = dict(FEATS_ALL, grids=["8x6h", "4x6h_off", "7xh_autumn"], modes=["split:12h", "split:d", "split:5h"])
     fams = [family("main", lambda ch: S.gen_portfolio(ch, FEATS_ALL), K),
+            family("split", lambda ch: S.gen_portfolio(ch, split), K),
             family("names", gen_names, K),
             family("wrapped", gen_wrapped, K)]
     cases, stats = merge_cases(*fams)
-    stats["bound"] = dict(K=K, families=["main", "names", "wrapped"])
+    stats["bound"] = dict(K=K, families=["main", "split", "names", "wrapped"])
     return cases, stats
 
 
